@@ -55,6 +55,14 @@ def main(tier, seed, replay=None):
                                                  weights=["none", "pos", "zeros"][k % 3], noise=[0.02, 0.1, 0.5][rep % 3],
                                                  quant=(8 if k % 4 else None), probs=[0.683],
                                                  ctor=("new_parallel" if k % 5 == 0 else "new"), builder_made=(k % 4 == 2 and P <= M)))
+    # almost noise-free data: variances far below machine epsilon in absolute terms (the covariance scales with the noise, its
+    # normalisation to correlations must not)
+    for j in range(8 if tier == "quick" else 120):
+        M, P = COMBOS[j % len(COMBOS)]
+        sc = "f32" if j % 4 == 3 else "f64"
+        cases.append(statsrun.gen_stats_case(rng, M, P, M + P + rng.randint(3, 10), scalar=sc, weights=["none", "pos"][j % 2],
+                                             noise=(1e-9 if sc == "f64" else 1e-5) * rng.choice([1.0, 0.1, 10.0]), qbits=(44 if sc == "f64" else 30),
+                                             quant=None, probs=[0.683]))
     results, idx, hist, nerr = run_stats_values(run, "C13", cases, binp, (24, 25, 26, 27, 28, 31), "covariance")
     # ordering: linear coefficients first (in basis order) then nonlinear parameters (declaration order) is what code 24 checks:
     # H's columns are [Phi | D_1 c | ... | D_P c]; slices are checked by code 27
